@@ -189,7 +189,27 @@ func checkC11(c *Ctx) {
 		if !ok {
 			return false, ""
 		}
-		key, _ := normCond(t.Cond)
+		key, keyPol := normCond(t.Cond)
+		// the switch form: case err == nil / case errors.Is(err, sentinel): continue / default: return —
+		// the exit is the false edge of the sentinel test, taken only for an error that is not a decode error
+		if key.op == token.ILLEGAL {
+			if ec, ok := key.x.(*ssa.Call); ok && calleeID(ec) == "errors.Is" && len(ec.Call.Args) == 2 {
+				src := ec.Call.Args[0]
+				if sv := loadSource(src); sv != nil {
+					src = sv
+				}
+				if call, _ := fromCall(src); call != nil && (calleeID(call) == hopID("tubes", "Muxer", "readMsg") || calleeID(call) == rawRead) {
+					// the edge that leaves must be the one on which errors.Is is false
+					for si, sc := range from.Succs {
+						leaves := !blockReaches(sc, from)
+						if leaves && ((si == 0) == keyPol) {
+							return false, "the receive loop is left when a frame does not decode (the true edge of the malformed-frame test): one malformed frame stops every tube"
+						}
+					}
+					return true, "transport read error (the false edge of the malformed-frame test: decode errors continue the loop)"
+				}
+			}
+		}
 		if key.op != token.EQL || key.y != nil {
 			return false, ""
 		}
